@@ -20,6 +20,20 @@
 // after the j-th tick, or never; the context given to Connect is kept alive or cancelled 7/8
 // of an interval after the k-th tick (k = 0: right after Connect returned).
 //
+// Two more dimensions of the model:
+//
+//   - held pings (script symbols l0 / l1 / l2): the session's own transport holds the ping's
+//     write for the model's duration (9/16 of an interval, one or two intervals and 1/16),
+//     whatever the ping's context says, then lets it out; the peer answers at once, too late.
+//     The ping is recorded at the instant the session handed it to the transport, with the
+//     hold. A ping whose context has already ended when it is handed over is refused by the
+//     transport (as the SDK's own transports do) and never reaches the peer: it appears
+//     among the attempts only.
+//   - how a ClientSession is established (est): "init" asks for a legacy protocol version,
+//     "fallback" asks for the latest one (no options, or the version spelled out), has its
+//     server/discover probe rejected in one of several ways and falls back to initialize,
+//     "modern" has the probe accepted (a protocol version without ping).
+//
 // Nothing here waits for the implementation to do something: every wait ends at an instant
 // fixed by the script (the owner's closing instant, the handler's release, the end of the
 // quiet period), and what has not happened by then is recorded as such (session still open,
@@ -58,31 +72,37 @@ import (
 )
 
 type c13Exp struct {
-	NPing   int    `json:"nping"`
-	CloseAt int    `json:"closeAt"`
-	UserAt  int    `json:"userAt"`
-	Unit    int    `json:"unit"`
-	Final   string `json:"final"`
-	Ticks   []int  `json:"ticks"`
-	HsAt    int    `json:"hsAt"` // model units: when the peer completes the handshake (0 before Connect returns, -1 never)
-	CcAt    int    `json:"ccAt"` // model units: when the Connect context is cancelled (-1 never)
+	NPing    int    `json:"nping"`
+	CloseAt  int    `json:"closeAt"`
+	UserAt   int    `json:"userAt"`
+	Unit     int    `json:"unit"`
+	Final    string `json:"final"`
+	Ticks    []int  `json:"ticks"`
+	HsAt     int    `json:"hsAt"`     // model units: when the peer completes the handshake (0 before Connect returns, -1 never)
+	CcAt     int    `json:"ccAt"`     // model units: when the Connect context is cancelled (-1 never)
+	Holds    []int  `json:"holds"`    // model units: for how long the transport held each ping of the expected run
+	Durs     []int  `json:"durs"`     // model units: for how long the transport holds the ping of each script position
+	UserPlan int    `json:"userPlan"` // model units: when the owner closes the session unless keep-alive has done so
 }
 
 type c13Case struct {
 	ID      int      `json:"id"`
 	Pattern []string `json:"pattern"`
 	T       int      `json:"T"`
-	End     string   `json:"end"`
+	End     string   `json:"end"` // idle, inflight, drain, held (the owner closes while the transport holds the last ping and a tick is waiting)
 	Drain   int      `json:"drain"`
-	Hs      int      `json:"hs"` // handshake slot: 0 before Connect returns, j after the j-th tick, -1 never
-	Cc      int      `json:"cc"` // Connect-context slot: -1 kept alive, k cancelled after the k-th tick
+	Hs      int      `json:"hs"`  // handshake slot: 0 before Connect returns, j after the j-th tick, -1 never
+	Cc      int      `json:"cc"`  // Connect-context slot: -1 kept alive, k cancelled after the k-th tick
+	Est     string   `json:"est"` // how the session was established: init, fallback, modern
 	Levels  []string `json:"levels"`
 	c13Exp
 }
 
 type c13Ping struct {
-	At  int64  `json:"at"`  // when the peer saw the ping
-	O   string `json:"o"`   // what the peer did with it: a t m c u
+	At  int64  `json:"at"`  // when the session handed the ping to its transport (= when the peer saw it, unless held)
+	O   string `json:"o"`   // what became of it: a t m c u, l = held by the transport past its deadline
+	K   string `json:"k"`   // the script symbol (l0, l1, l2 for held pings)
+	H   int64  `json:"h"`   // for how long the transport held it
 	V   string `json:"v"`   // concrete variant
 	D   int64  `json:"d"`   // answer delay (a) / late-reply delay (t)
 	DL  int64  `json:"dl"`  // func level: the deadline the ping context carried, relative to At (-1 unknown)
@@ -90,36 +110,42 @@ type c13Ping struct {
 }
 
 type c13Obs struct {
-	ID        int       `json:"id"`
-	Level     string    `json:"level"`
-	Pattern   []string  `json:"pattern"`
-	T         int       `json:"T"`
-	End       string    `json:"end"`
-	Drain     int       `json:"drain"` // end "drain": intervals the owner's Close waits for a running request handler
-	I         int64     `json:"I"`
-	Start     int64     `json:"start"`
-	Pings     []c13Ping `json:"pings"`
-	Attempts  []int64   `json:"attempts"`  // when the session tried to send a ping (sending middleware / Ping double)
-	Closed    int64     `json:"closed"`    // session terminated without its owner closing it (-1: no)
-	UserClose int64     `json:"userClose"` // owner called Close (-1: no)
-	Ended     int64     `json:"ended"`     // session termination observed (Wait returned / loop cancelled), -1 never
-	Closes    int       `json:"closes"`    // Close calls on the session double (func) / transport (session levels)
-	Cancels   int       `json:"cancels"`   // notifications/cancelled seen by the peer
-	Left      int       `json:"left"`      // goroutines left at the end of the scenario
-	LeftAt    string    `json:"leftAt"`    // where they were created
-	KAEarly   int       `json:"kaEarly"`   // keep-alive goroutines alive right after the owner's Close began (settled)
-	Released  int64     `json:"released"`  // end "drain": when the handler was released (-1 otherwise)
-	KAAlive   int       `json:"kaAlive"`   // keep-alive goroutines still alive once the closing / the owner's Close had settled
-	Settle    int64     `json:"settle"`    // when that census was taken
-	Exit      string    `json:"exit"`      // "clean" or what synctest reported at bubble exit
-	Hand      string    `json:"hand"`      // handshake variant
-	Hs        int       `json:"hs"`        // handshake slot of the case
-	Cc        int       `json:"cc"`        // Connect-context slot of the case
-	HsAt      int64     `json:"hsAt"`      // when the handshake completed (the initialize reply was written), -1 never
-	CcAt      int64     `json:"ccAt"`      // when the context given to Connect was cancelled, -1 never
-	Quiet     int64     `json:"quiet"`     // length of the quiet period observed after the session was over
-	QuietCut  bool      `json:"quietCut"`  // the watchdog cut the quiet period short
-	Exp       c13Exp    `json:"exp"`
+	ID          int       `json:"id"`
+	Level       string    `json:"level"`
+	Pattern     []string  `json:"pattern"`
+	T           int       `json:"T"`
+	End         string    `json:"end"`
+	Drain       int       `json:"drain"` // end "drain": intervals the owner's Close waits for a running request handler
+	I           int64     `json:"I"`
+	Start       int64     `json:"start"`
+	Pings       []c13Ping `json:"pings"`
+	Attempts    []int64   `json:"attempts"`    // when the session tried to send a ping (sending middleware / Ping double)
+	Closed      int64     `json:"closed"`      // session terminated without its owner closing it (-1: no)
+	UserClose   int64     `json:"userClose"`   // owner called Close (-1: no)
+	Ended       int64     `json:"ended"`       // session termination observed (Wait returned / loop cancelled), -1 never
+	Closes      int       `json:"closes"`      // Close calls on the session double (func) / transport (session levels)
+	Cancels     int       `json:"cancels"`     // notifications/cancelled seen by the peer
+	Left        int       `json:"left"`        // goroutines left at the end of the scenario
+	LeftAt      string    `json:"leftAt"`      // where they were created
+	KAEarly     int       `json:"kaEarly"`     // keep-alive goroutines alive right after the owner's Close began (settled)
+	Released    int64     `json:"released"`    // end "drain": when the handler was released (-1 otherwise)
+	KAAlive     int       `json:"kaAlive"`     // keep-alive goroutines still alive once the closing / the owner's Close had settled
+	Settle      int64     `json:"settle"`      // when that census was taken
+	Exit        string    `json:"exit"`        // "clean" or what synctest reported at bubble exit
+	Hand        string    `json:"hand"`        // handshake variant
+	Hs          int       `json:"hs"`          // handshake slot of the case
+	Cc          int       `json:"cc"`          // Connect-context slot of the case
+	HsAt        int64     `json:"hsAt"`        // when the handshake completed (the initialize reply was written), -1 never
+	CcAt        int64     `json:"ccAt"`        // when the context given to Connect was cancelled, -1 never
+	Est         string    `json:"est"`         // how the session was established (the case's)
+	Disc        string    `json:"disc"`        // what the peer did with server/discover
+	Probes      int       `json:"probes"`      // server/discover requests the peer saw
+	Neg         string    `json:"neg"`         // the protocol version the session ended up with ("" unknown)
+	Pingable    bool      `json:"pingable"`    // that version has ping
+	Uninspected int       `json:"uninspected"` // censuses for which the goroutine count was off and no dump could be taken any more
+	Quiet       int64     `json:"quiet"`       // length of the quiet period observed after the session was over
+	QuietCut    bool      `json:"quietCut"`    // the watchdog cut the quiet period short
+	Exp         c13Exp    `json:"exp"`
 }
 
 // ---------------------------------------------------------------------------
@@ -192,6 +218,11 @@ func (r *c13Rec) next(ctx context.Context) (c13Ping, int) {
 	} else {
 		p.O = "u" // beyond the script: left unresolved (the owner closes meanwhile)
 	}
+	p.K = p.O
+	if strings.HasPrefix(p.O, "l") {
+		p.O, p.V = "l", "held"
+		p.H = int64(time.Duration(r.obs.Exp.Durs[n]) * r.ivl / time.Duration(r.obs.Exp.Unit) / time.Microsecond)
+	}
 	half := r.ivl / 2
 	switch p.O {
 	case "a":
@@ -255,25 +286,27 @@ func (r *c13Rec) pingWatch(next MethodHandler) MethodHandler {
 
 // kaCount counts the keep-alive goroutines of this bubble; hint is the goroutine count at
 // which there can be none (negative: always look).
+//
+// The goroutine count is the process's: goroutines outside the bubble (the runtime's, the test
+// framework's, an earlier bubble's on their way out) make it differ from the hint now and
+// then, so a count that is off is never taken for a keep-alive loop: only the goroutine dump
+// decides. When no dump can be taken any more (c13DumpBudget) the census is marked as not
+// inspected - the check script then refuses to give a verdict - instead of being guessed.
 func (r *c13Rec) kaCount(hint int) int {
 	if n := runtime.NumGoroutine(); n == hint {
 		return 0
-	} else if c13Dumps >= c13MaxDumps {
-		if hint >= 0 && n > hint {
-			return n - hint
-		}
+	}
+	_, _, ka, ok := c13Bubble()
+	if !ok {
+		r.obs.Uninspected++
 		return 0
 	}
-	_, _, ka := c13Bubble()
 	return ka
 }
 
+// userTime is the instant at which the owner closes the session (the model's plan for the case).
 func (r *c13Rec) userTime() time.Duration {
-	l := time.Duration(len(r.pattern))
-	if r.obs.End == "idle" || r.obs.End == "drain" {
-		return l*r.ivl + 3*r.ivl/4
-	}
-	return (l+1)*r.ivl + r.ivl/4
+	return time.Duration(r.obs.Exp.UserPlan) * r.ivl / time.Duration(r.obs.Exp.Unit)
 }
 
 // ---------------------------------------------------------------------------
@@ -282,16 +315,24 @@ func (r *c13Rec) userTime() time.Duration {
 type c13Pinger struct {
 	r      *c13Rec
 	cancel *context.CancelFunc
-	calls  sync.WaitGroup // outstanding Ping calls
+	calls  atomic.Int64 // outstanding Ping calls
 }
 
 func (s *c13Pinger) Ping(ctx context.Context, _ *PingParams) error {
 	s.calls.Add(1)
-	defer s.calls.Done()
+	defer s.calls.Add(-1)
 	s.r.attempt()
+	if err := ctx.Err(); err != nil {
+		// a real session does not let out a ping whose context has already ended
+		return fmt.Errorf("calling %q: %w", "ping", err)
+	}
 	p, idx := s.r.next(ctx)
 	var err error
 	switch p.O {
+	case "l":
+		// the transport holds the write, whatever the context says; the reply comes at once, after the deadline
+		time.Sleep(time.Duration(p.H) * time.Microsecond)
+		err = ctx.Err()
 	case "a":
 		if p.D > 0 {
 			select {
@@ -356,11 +397,16 @@ func c13RunFunc(r *c13Rec, thr int) {
 		r.mu.Unlock()
 		// what Close of a real session does: cancel keep-alive, then wait for outstanding calls
 		cancel()
-		if o.End != "inflight" {
+		if o.End != "inflight" && o.End != "held" {
 			synctest.Wait()
 			o.KAEarly = r.kaCount(r.g0)
 		}
-		sess.calls.Wait()
+		// (every instant of a scenario is a multiple of a sixteenth of the interval; a ping that the loop
+		// starts after the cancellation is waited for as well)
+		for i := 0; i < 16*64 && sess.calls.Load() > 0; i++ {
+			time.Sleep(r.ivl / 16)
+			synctest.Wait()
+		}
 	} else {
 		r.mu.Unlock()
 	}
@@ -371,11 +417,12 @@ func c13RunFunc(r *c13Rec, thr int) {
 // levels "server" / "client": scripted Connection
 
 type c13Conn struct {
-	r      *c13Rec
-	in     chan jsonrpc.Message
-	done   chan struct{}
-	once   sync.Once
-	legacy string
+	r    *c13Rec
+	in   chan jsonrpc.Message
+	done chan struct{}
+	once sync.Once
+	est  string // how the client session is to be established
+	disc int    // fallback: how the peer rejects server/discover
 }
 
 func (c *c13Conn) Connect(context.Context) (Connection, error) { return c, nil }
@@ -424,10 +471,18 @@ func (c *c13Conn) pushAfter(d time.Duration, raw string) {
 	time.AfterFunc(d, func() { c.push(raw) })
 }
 
+var c13Discs = []string{"method-not-found", "unsupported-nodata", "unsupported-legacy-list", "result-legacy-only", "internal-error", "unsupported-then-unknown"}
+
 func (c *c13Conn) Write(ctx context.Context, msg jsonrpc.Message) error {
 	select {
 	case <-c.done:
 		return io.ErrClosedPipe
+	default:
+	}
+	// like the SDK's own transports: a write on an ended context is an error
+	select {
+	case <-ctx.Done():
+		return ctx.Err()
 	default:
 	}
 	data, err := jsonrpc.EncodeMessage(msg)
@@ -449,6 +504,11 @@ func (c *c13Conn) Write(ctx context.Context, msg jsonrpc.Message) error {
 		p, _ := c.r.next(nil)
 		id := string(w.ID)
 		switch p.O {
+		case "l":
+			// the write stalls (the peer is not draining its input) and cannot be interrupted; then the
+			// ping goes out and is answered at once
+			time.Sleep(time.Duration(p.H) * time.Microsecond)
+			c.push(`{"jsonrpc":"2.0","id":` + id + `,"result":{}}`)
 		case "a":
 			c.pushAfter(time.Duration(p.D)*time.Microsecond, `{"jsonrpc":"2.0","id":`+id+`,"result":{}}`)
 		case "t":
@@ -471,6 +531,41 @@ func (c *c13Conn) Write(ctx context.Context, msg jsonrpc.Message) error {
 		c.r.mu.Lock()
 		c.r.obs.HsAt = c.r.us()
 		c.r.mu.Unlock()
+	case w.Method == "server/discover" && len(w.ID) > 0:
+		c.r.mu.Lock()
+		c.r.obs.Probes++
+		n := c.r.obs.Probes
+		c.r.mu.Unlock()
+		id := string(w.ID)
+		reject := func(code int, msg, data string) {
+			if data != "" {
+				data = `,"data":` + data
+			}
+			c.push(`{"jsonrpc":"2.0","id":` + id + `,"error":{"code":` + strconv.Itoa(code) + `,"message":` + strconv.Quote(msg) + data + `}}`)
+		}
+		switch {
+		case c.est == "modern":
+			c.r.mu.Lock()
+			c.r.obs.HsAt = c.r.us()
+			c.r.mu.Unlock()
+			c.push(`{"jsonrpc":"2.0","id":` + id + `,"result":{"supportedVersions":["2026-07-28","2025-11-25"],"capabilities":{}}}`)
+		case c.est != "fallback" || c.disc == 0:
+			reject(-32601, "Method not found", "")
+		case c.disc == 1:
+			reject(-32022, "unsupported protocol version", "")
+		case c.disc == 2:
+			reject(-32022, "unsupported protocol version", `{"supported":["2025-11-25","2025-06-18"],"requested":"2026-07-28"}`)
+		case c.disc == 3:
+			c.push(`{"jsonrpc":"2.0","id":` + id + `,"result":{"supportedVersions":["2025-11-25","2025-03-26"],"capabilities":{}}}`)
+		case c.disc == 4:
+			reject(-32603, "boom", "")
+		default:
+			if n == 1 {
+				reject(-32022, "unsupported protocol version", `{"supported":["2026-07-28"],"requested":"2026-07-28"}`)
+			} else {
+				reject(-32601, "Method not found", "")
+			}
+		}
 	case w.Method == "initialize" && len(w.ID) > 0:
 		c.r.mu.Lock()
 		c.r.obs.HsAt = c.r.us()
@@ -493,9 +588,10 @@ type c13Session interface {
 
 func c13RunSession(r *c13Rec, thr int, level string, c c13Case) error {
 	o := r.obs
-	conn := &c13Conn{r: r, in: make(chan jsonrpc.Message, 64), done: make(chan struct{})}
+	conn := &c13Conn{r: r, in: make(chan jsonrpc.Message, 64), done: make(chan struct{}), est: c.Est}
 	legacy := []string{"2025-11-25", "2025-06-18", "2025-03-26", "2024-11-05"}
 	ver := legacy[r.rng.IntN(len(legacy))]
+	negotiated := func() string { return "" }
 	// the context given to Connect; its cancel function is called at the slot's instant, or
 	// when the scenario is over (c13Scenario)
 	ctx, cancel := context.WithCancel(context.Background())
@@ -533,6 +629,12 @@ func c13RunSession(r *c13Rec, thr int, level string, c c13Case) error {
 			return err
 		}
 		sess = ss
+		negotiated = func() string {
+			if ip := ss.InitializeParams(); ip != nil {
+				return ip.ProtocolVersion
+			}
+			return ""
+		}
 	} else {
 		o.Hand = ver
 		slow = `{"jsonrpc":"2.0","id":"slow","method":"sampling/createMessage","params":{"messages":[],"maxTokens":8}}`
@@ -543,12 +645,42 @@ func c13RunSession(r *c13Rec, thr int, level string, c c13Case) error {
 				return &CreateMessageResult{Model: "m", Role: "assistant", Content: &TextContent{Text: "x"}}, nil
 			}})
 		c.AddSendingMiddleware(r.pingWatch)
-		cs, err := c.Connect(ctx, conn, &ClientSessionOptions{ProtocolVersion: ver})
+		// how the session is established: a legacy version asked for, or the latest one (by
+		// default or spelled out) with the peer rejecting / accepting the server/discover probe
+		copts := &ClientSessionOptions{ProtocolVersion: ver}
+		if conn.est != "init" {
+			o.Hand = "latest"
+			if r.rng.IntN(2) == 0 {
+				copts = nil
+				o.Hand = "default"
+			} else {
+				copts = &ClientSessionOptions{ProtocolVersion: latestProtocolVersion}
+			}
+			if conn.est == "fallback" {
+				conn.disc = r.rng.IntN(len(c13Discs))
+				o.Disc = c13Discs[conn.disc]
+			} else {
+				o.Disc = "accepted"
+			}
+		}
+		cs, err := c.Connect(ctx, conn, copts)
 		if err != nil {
 			return err
 		}
 		sess = cs
+		negotiated = func() string {
+			if ir := cs.InitializeResult(); ir != nil {
+				return ir.ProtocolVersion
+			}
+			return ""
+		}
 	}
+	defer func() {
+		// what the session speaks: ping exists in every protocol version before 2026-07-28 (and
+		// before any version has been agreed)
+		o.Neg = negotiated()
+		o.Pingable = o.Neg < protocolVersion20260728
+	}()
 	o.Start = r.us()
 	if c.Cc >= 0 {
 		time.AfterFunc(r.slotTime(c.Cc, 7)-time.Since(r.t0), func() {
@@ -600,11 +732,14 @@ func c13RunSession(r *c13Rec, thr int, level string, c c13Case) error {
 		n0 := runtime.NumGoroutine()
 		closed := make(chan struct{})
 		go func() { sess.Close(); close(closed) }()
-		if o.End != "inflight" {
+		if o.End != "inflight" && o.End != "held" {
 			// Close has begun and everything runnable has run (Close itself may be waiting for the
 			// handler). With keep-alive gone there is one goroutine more (Close) and one less.
 			synctest.Wait()
 			hint := n0
+			if c.Est == "modern" {
+				hint = n0 + 1 // no loop was started: nothing leaves when Close begins
+			}
 			r.mu.Lock()
 			for _, p := range o.Pings {
 				if p.O == "m" {
@@ -642,11 +777,15 @@ func c13RunSession(r *c13Rec, thr int, level string, c c13Case) error {
 
 // ---------------------------------------------------------------------------
 
-// Goroutine dumps are only taken when the goroutine count is off; they are capped because
-// with a leaking implementation every dump also lists the goroutines of earlier scenarios.
-const c13MaxDumps = 300
+// Goroutine dumps are only taken when the goroutine count is off; their total size is capped
+// because with a leaking implementation every dump also lists the goroutines of earlier
+// scenarios. With nothing leaking a dump is a few kilobytes: the cap is never reached then.
+const c13DumpBudget = 1 << 30
 
-var c13Dumps int
+var (
+	c13Dumps     int
+	c13DumpBytes int64
+)
 
 var (
 	c13HdrRE    = regexp.MustCompile(`(?m)^goroutine \d+ \[[^\]]*synctest bubble (\d+)[^\]]*\]:$`)
@@ -656,13 +795,26 @@ var (
 // c13Bubble inspects the goroutines of the calling goroutine's synctest bubble other than
 // the caller and the bubble's main goroutine: how many there are, where they were created,
 // and how many of them are keep-alive loops (startKeepalive on their stack).
-func c13Bubble() (others int, where string, keepalive int) {
+func c13Bubble() (others int, where string, keepalive int, ok bool) {
+	if c13DumpBytes >= c13DumpBudget {
+		return 0, "", 0, false
+	}
+	ok = true
 	c13Dumps++
+	defer func() {
+		if f := os.Getenv("VERIF_C13_DUMPLOG"); f != "" {
+			if fh, err := os.OpenFile(f, os.O_APPEND|os.O_CREATE|os.O_WRONLY, 0o644); err == nil {
+				fmt.Fprintf(fh, "C13-DUMP %d %s others=%d ka=%d where=%s\n", c13Dumps, c13W.what, others, keepalive, where)
+				fh.Close()
+			}
+		}
+	}()
 	buf := make([]byte, 1<<18)
 	for {
 		n := runtime.Stack(buf, true)
 		if n < len(buf) {
 			buf = buf[:n]
+			c13DumpBytes += int64(n)
 			break
 		}
 		buf = make([]byte, 2*len(buf))
@@ -670,7 +822,7 @@ func c13Bubble() (others int, where string, keepalive int) {
 	blocks := strings.Split(string(buf), "\n\n")
 	m := c13HdrRE.FindStringSubmatch(blocks[0])
 	if m == nil {
-		return 0, "", 0
+		return 0, "", 0, true
 	}
 	tag := "synctest bubble " + m[1] + "]"
 	var ws []string
@@ -690,7 +842,7 @@ func c13Bubble() (others int, where string, keepalive int) {
 			ws = append(ws, c[1])
 		}
 	}
-	return others, strings.Join(ws, ";"), keepalive
+	return others, strings.Join(ws, ";"), keepalive, true
 }
 
 // ---------------------------------------------------------------------------
@@ -755,7 +907,7 @@ func (w *c13Watchdog) watch() {
 
 func c13Scenario(t *testing.T, c c13Case, level string, seed uint64) (o *c13Obs) {
 	o = &c13Obs{ID: c.ID, Level: level, Pattern: c.Pattern, T: c.T, End: c.End, Drain: c.Drain, Pings: []c13Ping{},
-		Attempts: []int64{}, Released: -1, Hs: c.Hs, Cc: c.Cc, HsAt: -1, CcAt: -1,
+		Attempts: []int64{}, Released: -1, Hs: c.Hs, Cc: c.Cc, HsAt: -1, CcAt: -1, Est: c.Est, Pingable: true,
 		Closed: -1, UserClose: -1, Ended: -1, Exit: "clean", Hand: "", Exp: c.c13Exp}
 	c13W.begin(fmt.Sprintf("id=%d level=%s pattern=%s T=%d end=%s drain=%d hs=%d cc=%d seed=%d", c.ID, level,
 		strings.Join(c.Pattern, "")+"-", c.T, c.End, c.Drain, c.Hs, c.Cc, seed))
@@ -765,6 +917,12 @@ func c13Scenario(t *testing.T, c c13Case, level string, seed uint64) (o *c13Obs)
 	}
 	if o.Exp.Ticks == nil {
 		o.Exp.Ticks = []int{}
+	}
+	if o.Exp.Holds == nil {
+		o.Exp.Holds = []int{}
+	}
+	if o.Exp.Durs == nil {
+		o.Exp.Durs = []int{}
 	}
 	lv := map[string]uint64{"func": 1, "server": 2, "client": 3}[level]
 	rng := rand.New(rand.NewPCG(seed, uint64(c.ID)*4+lv))
@@ -816,10 +974,10 @@ func c13Scenario(t *testing.T, c c13Case, level string, seed uint64) (o *c13Obs)
 		synctest.Wait()
 		if d := runtime.NumGoroutine() - g0; d != 0 {
 			// confirm on the goroutine dump: only goroutines of this bubble count
-			if c13Dumps < c13MaxDumps {
-				o.Left, o.LeftAt, _ = c13Bubble()
-			} else if d > 0 {
-				o.Left, o.LeftAt = d, "(not inspected)"
+			if others, where, _, ok := c13Bubble(); ok {
+				o.Left, o.LeftAt = others, where
+			} else {
+				o.Uninspected++
 			}
 		}
 		if r.cancel != nil {
@@ -878,7 +1036,7 @@ func TestVerif_C13(t *testing.T) {
 			if level != "func" && level != "server" && level != "client" {
 				t.Fatalf("bad level %q", level)
 			}
-			if level == "func" && (c.Hs != 0 || c.Cc >= 0) || level == "client" && c.Hs != 0 {
+			if level == "func" && (c.Hs != 0 || c.Cc >= 0) || level == "client" && c.Hs != 0 || level != "client" && c.Est != "init" {
 				t.Fatalf("case %d: level %s has no handshake slot %d / Connect context slot %d", c.ID, level, c.Hs, c.Cc)
 			}
 			o := c13Scenario(t, c, level, seed)
